@@ -63,8 +63,24 @@ fn judge_equals<O: Clone + Debug + Eq + 'static>(o1: &O, o2: &O) -> CheckResult 
 #[derive(Clone, Copy, Debug, Serialize, Deserialize, PartialEq, Eq, Hash, Default)]
 pub struct Unit0;
 
+/// Equality finer than the Debug text (a terse manual Debug omits a field that Eq compares).
+#[derive(Clone, Copy, Serialize, Deserialize, PartialEq, Eq, Hash)]
+pub struct Terse(pub u8, pub u8);
+impl Debug for Terse { fn fmt(&self, f: &mut std::fmt::Formatter<'_>) -> std::fmt::Result { write!(f, "Terse({})", self.0) } }
+/// Equality coarser than the Debug text (Eq ignores a field that Debug prints).
+#[derive(Clone, Copy, Serialize, Deserialize, Debug)]
+pub struct Loose(pub u8, pub u8);
+impl PartialEq for Loose { fn eq(&self, o: &Self) -> bool { self.0 == o.0 } }
+impl Eq for Loose {}
+impl std::hash::Hash for Loose { fn hash<H: std::hash::Hasher>(&self, h: &mut H) { self.0.hash(h) } }
+
 #[derive(Clone, Debug, Serialize, Deserialize, PartialEq, Eq, Hash)]
 pub enum Pair {
+  /// Payload types whose Debug text and Eq disagree (the relation is defined by Eq).
+  TerseP(Ck, Result<Terse, Terse>, Result<Terse, Terse>),
+  LooseP(Ck, Result<Loose, Loose>, Result<Loose, Loose>),
+  EqTerse(Terse, Terse),
+  EqLoose(Loose, Loose),
   /// Zero-sized payloads on the Err side, the Ok side, or both; and wide payloads (size-dependent code paths).
   ZErr(Ck, Result<u8, ()>, Result<u8, ()>),
   ZOk(Ck, Result<(), u8>, Result<(), u8>),
@@ -87,6 +103,10 @@ pub fn check(p: &Pair, stats: &mut Stats) -> CheckResult {
     Pair::Small(c, a, b) => (judge_result(*c, a, b), rel(*c, a, b) != (a == b)),
     Pair::Text(c, a, b) => (judge_result(*c, a, b), rel(*c, a, b) != (a == b)),
     Pair::Mixed(c, a, b) => (judge_result(*c, a, b), rel(*c, a, b) != (a == b)),
+    Pair::TerseP(c, a, b) => { stats.class("payload_whose_debug_text_and_eq_disagree"); (judge_result(*c, a, b), true) }
+    Pair::LooseP(c, a, b) => { stats.class("payload_whose_debug_text_and_eq_disagree"); (judge_result(*c, a, b), true) }
+    Pair::EqTerse(a, b) => (judge_equals(a, b), a != b),
+    Pair::EqLoose(a, b) => (judge_equals(a, b), a != b),
     Pair::ZErr(c, a, b) => (judge_result(*c, a, b), rel(*c, a, b) != (a == b)),
     Pair::ZOk(c, a, b) => (judge_result(*c, a, b), rel(*c, a, b) != (a == b)),
     Pair::ZBoth(c, a, b) => (judge_result(*c, a, b), rel(*c, a, b) != (a == b)),
@@ -106,6 +126,10 @@ pub fn check(p: &Pair, stats: &mut Stats) -> CheckResult {
     Pair::Small(c, a, _) => judge_result(*c, a, a),
     Pair::Text(c, a, _) => judge_result(*c, a, a),
     Pair::Mixed(c, a, _) => judge_result(*c, a, a),
+    Pair::TerseP(c, a, _) => judge_result(*c, a, a),
+    Pair::LooseP(c, a, _) => judge_result(*c, a, a),
+    Pair::EqTerse(a, _) => judge_equals(a, a),
+    Pair::EqLoose(a, _) => judge_equals(a, a),
     Pair::ZErr(c, a, _) => judge_result(*c, a, a),
     Pair::ZOk(c, a, _) => judge_result(*c, a, a),
     Pair::ZBoth(c, a, _) => judge_result(*c, a, a),
@@ -129,7 +153,13 @@ fn res<T: Debug + Clone + 'static, E: Debug + Clone + 'static>(t: impl Strategy<
 
 pub fn strategy() -> impl Strategy<Value=Pair> {
   fn wide() -> impl Strategy<Value=Result<[u8; 24], u64>> { res((0u8..3, 0usize..24).prop_map(|(v, i)| { let mut a = [0u8; 24]; a[i] = v; a }), prop_oneof![0u64..3, Just(1u64 << 40), Just(u64::MAX)]) }
+  fn terse() -> impl Strategy<Value=Terse> { (0u8..2, 0u8..2).prop_map(|(a, b)| Terse(a, b)) }
+  fn loose() -> impl Strategy<Value=Loose> { (0u8..2, 0u8..2).prop_map(|(a, b)| Loose(a, b)) }
   prop_oneof![
+    2 => (ck(), res(terse(), terse()), res(terse(), terse())).prop_map(|(c, a, b)| Pair::TerseP(c, a, b)),
+    2 => (ck(), res(loose(), loose()), res(loose(), loose())).prop_map(|(c, a, b)| Pair::LooseP(c, a, b)),
+    1 => (terse(), terse()).prop_map(|(a, b)| Pair::EqTerse(a, b)),
+    1 => (loose(), loose()).prop_map(|(a, b)| Pair::EqLoose(a, b)),
     1 => (ck(), res(0u8..3, Just(())), res(0u8..3, Just(()))).prop_map(|(c, a, b)| Pair::ZErr(c, a, b)),
     1 => (ck(), res(Just(()), 0u8..3), res(Just(()), 0u8..3)).prop_map(|(c, a, b)| Pair::ZOk(c, a, b)),
     1 => (ck(), res(Just(()), Just(())), res(Just(()), Just(()))).prop_map(|(c, a, b)| Pair::ZBoth(c, a, b)),
@@ -153,7 +183,7 @@ pub fn replay(path: &Path) -> Result<CheckResult, String> {
 }
 
 pub fn run(tier: Tier, seed: u64) -> i32 {
-  let rule = "all five built-in checkers through both the OutputChecker methods and the object-safe OutputCheckerObj proxy: (1) exhaustive over all 8x8 pairs of Result<u8 in 0..4, u8 in 0..4> x 5 checkers; (1b) exhaustive over Result<u8,()>, Result<(),u8>, Result<(),()> (zero-sized payload types); (2) proptest-generated pairs of Result<String,String>, Result<(u8,String),Vec<u8>>, Result<String,UnitStruct>, Result<UnitStruct,String>, Result<[u8;24],u64>, and Option/tuple/Vec values for EqualsChecker; oracle: check(o2, stamp(o1)) is consistent iff the documented relation holds, plus reflexivity; non-trivial = pair on which the relation differs from plain equality (or an unequal pair for EqualsChecker); distinct by value hash";
+  let rule = "all five built-in checkers through both the OutputChecker methods and the object-safe OutputCheckerObj proxy: (1) exhaustive over all 8x8 pairs of Result<u8 in 0..4, u8 in 0..4> x 5 checkers; (1b) exhaustive over Result<u8,()>, Result<(),u8>, Result<(),()> (zero-sized payload types); (2) proptest-generated pairs of Result<String,String>, Result<(u8,String),Vec<u8>>, Result<String,UnitStruct>, Result<UnitStruct,String>, Result<[u8;24],u64>, payload types whose Debug text is terser / finer than their Eq, and Option/tuple/Vec values for EqualsChecker; oracle: check(o2, stamp(o1)) is consistent iff the documented relation holds, plus reflexivity; non-trivial = pair on which the relation differs from plain equality (or an unequal pair for EqualsChecker); distinct by value hash";
   let mut report = Report::new("C12", tier, seed, "exploration", rule);
   let known = Known::load("C12");
   super::prologue(&mut report, &known);
